@@ -8,7 +8,7 @@ import (
 )
 
 // Up4Gen generates request histories for the UP4 datapath inside the envelope the UP4 image
-// relation is stated for (DESIGN A.4):
+// relation is stated for (DESIGN 11.4):
 //   - a session has one UE address, one uplink FAR (forward to core) and one downlink FAR shared by
 //     all its downlink PDRs (forward to a gNB with outer header creation, buffer, or drop);
 //   - rules come in flows: an uplink and a downlink PDR with the same application filter (or none)
